@@ -31,21 +31,43 @@ def _distinct(rnd, n):
     return rnd.sample([v for v in range(-15, 16) if v != 0], n)
 
 
+def _unit(n, k, v):
+    return [v if n and i == k % n else 0 for i in range(n)]
+
+
+def _zero_vec(rnd, n, kind):
+    base = _distinct(rnd, n)
+    single = rnd.randrange(n) if n else 0
+    out = []
+    for k in range(n):
+        z = [k == 0, k + 1 == n, k % 2 == 0, k % 2 == 1, k != single, True, k % 3 != 1][kind]
+        out.append(base[k] if not z else ('-0' if kind >= 6 else 0))
+    return out
+
+
+def _products(rnd, r, k):
+    """one probe: the main pair (pairwise distinct non-zero components) + the battery with exact zeros
+    (e_j for every j, zeros first / last / alternating, single non-zero entry, all zero, negative zero)"""
+    zx = [_unit(k, j, 1) for j in range(max(r, k))] + [_zero_vec(rnd, k, kind) for kind in range(7)]
+    zy = [_unit(r, j, 1) for j in range(max(r, k))] + [_zero_vec(rnd, r, kind) for kind in range(7)]
+    return dict(op='products', x=_distinct(rnd, k), y=_distinct(rnd, r), a=rnd.choice([-3, -2, -1, 0, 2, 3]), zx=zx, zy=zy)
+
+
 def transform_c07(seed, both_ctors):
-    """TLC behaviour -> C07 case(s): a products event on every state of the behaviour; vectors with pairwise
-    distinct components, drawn deterministically from (seed, case number)."""
+    """TLC behaviour -> C07 case(s): a products event on every state of the behaviour; vectors drawn
+    deterministically from (seed, case number)."""
     def f(c, n):
         rnd = random.Random(seed * 1000003 + n)
         out = []
         kinds = ['from_triplets', 'from_vecs'] if both_ctors else [['from_triplets', 'from_vecs'][(n // 2) % 2]]
         for q, kind in enumerate(kinds):
             r, k = c['rows'], c['cols']
-            steps = [ctor_steps(c, kind), dict(op='products', x=_distinct(rnd, k), y=_distinct(rnd, r), a=rnd.choice([-3, -2, -1, 0, 2, 3]))]
+            steps = [ctor_steps(c, kind), _products(rnd, r, k)]
             for o in c['ops']:
                 steps.append(o)
                 if o['op'] == 'transpose':
                     r, k = k, r
-                steps.append(dict(op='products', x=_distinct(rnd, k), y=_distinct(rnd, r), a=rnd.choice([-3, -2, -1, 0, 2, 3])))
+                steps.append(_products(rnd, r, k))
             out.append(dict(suite='sparse', prop='C07', ty=TYS[(n + q) % 2], steps=steps))
         return out
     return f
